@@ -29,6 +29,9 @@ for a in G.KINDS5:
     SIBLING[f"def{a}Vector"] = [f"def{b}Vector" for b in G.KINDS5 if b != a]
 for a in G.KINDS4:
     SIBLING[f"new{a}Vector"] = [f"new{b}Vector" for b in G.KINDS4 if b != a]
+    # the same element kind in the other direction: set<X>Vector and new<X>Vector carry the very same one<X> children
+    SIBLING[f"new{a}Vector"].append(f"set{a}Vector")
+    SIBLING[f"set{a}Vector"].append(f"new{a}Vector")
 
 
 def other_value(rng, tag, attr, cur, vocab):
@@ -135,10 +138,25 @@ def perturbations(rng, am):
         m = convert_kind(am, sib)
         if m is not None:
             yield f"kind-changed:{sib}", m
+    if am["tag"].endswith("Vector") and not am.get("children"):
+        # a vector without children against messages of kinds that never have any
+        yield "kind-changed:getProperties", {"tag": "getProperties", "attrs": {"version": "1.7", "device": am["attrs"].get("device", "D")}, "text": None, "children": None}
+        yield "kind-changed:delProperty", {"tag": "delProperty", "attrs": {"device": am["attrs"].get("device", "D"), "name": am["attrs"].get("name", "P")}, "text": None, "children": None}
 
 
 def convert_kind(am, sib):
     sspec = G.GRAMMAR[sib]
+    if G.GRAMMAR[am["tag"]]["child"] == sspec["child"] and sspec["child"]:
+        # same part kind: the children are taken over unchanged, only the message kind differs
+        m = {"tag": sib, "attrs": {a: v for a, v in am["attrs"].items() if a in sspec["req"] or a in sspec["opt"]}, "text": None,
+             "children": copy.deepcopy(am.get("children") or [])}
+        for a in sspec["req"]:
+            if a not in m["attrs"]:
+                if a in sspec["vocab"]:
+                    m["attrs"][a] = sspec["vocab"][a][0]
+                else:
+                    return None
+        return m
     m = {"tag": sib, "attrs": {}, "text": None, "children": None}
     for a, v in am["attrs"].items():
         if a in sspec["req"] or a in sspec["opt"]:
